@@ -26,6 +26,9 @@ func galForest(ns []*node) string {
 		if k == 0 {
 			k = 1
 		}
+		if n.SameAs != nil {
+			n.First, n.Last = n.SameAs.First, n.SameAs.Last
+		}
 		it[i] = fmt.Sprintf("P %d %d %d %d %d %s %s", n.Kind, k, n.First, n.Last, n.TLen, galForest(n.Attrs), galForest(n.Kids))
 	}
 	return "[" + strings.Join(it, ";") + "]"
@@ -73,6 +76,11 @@ func galCase(rd Rendered, got map[string]*found) string {
 		if seen[d.Key] || len(d.Paths) == 0 {
 			continue
 		}
+		if d.Replaced {
+			// a statement (or its attribute) of a collector declaration that a later declaration of the collector replaced:
+			// no element of the module any more (its path now names a statement of the later declaration)
+			continue
+		}
 		seen[d.Key] = true
 		var cs []string
 		if f := got[d.Paths[0]]; f != nil {
@@ -90,7 +98,7 @@ func galCase(rd Rendered, got map[string]*found) string {
 }
 
 func toCase(stream string, rd Rendered) Input {
-	cs := Input{Stream: stream, Root: rd.Files[0].Name, Files: map[string]string{}, Decls: rd.Decls}
+	cs := Input{Stream: stream, Root: rd.Files[0].Name, Files: map[string]string{}, Decls: rd.Decls, Implicit: rd.Implicit}
 	for _, f := range rd.Files {
 		cs.Files[f.Name] = f.Text
 	}
@@ -117,13 +125,17 @@ func main() {
 		common.ServeWorker(compileInWorker)
 		return
 	}
+	if len(os.Args) > 2 && os.Args[1] == "lex" {
+		lexDump(os.Args[2])
+		return
+	}
 	if len(os.Args) > 2 && os.Args[1] == "probe" {
 		probe(os.Args[2:])
 		return
 	}
 	c := common.Setup("C08")
 	defer c.Finish()
-	c.Res.Rule = "each case = one generated specification (1-3 apps in 1-4 blocks each over 1-5 files of a star / chain / tree import graph with up to n extra cross / diamond / back edges, in a third of the cases one app re-opened in every file; attribute and annotation values as string, flat array, nested arrays, empty array, empty string, multi-line doc string; types and tables with fields, simple endpoints, events, REST trees with every HTTP verb, nested statements, attributes, modifiers, array values and annotations; apps, types, fields, endpoints, REST methods and annotations re-declared) written with a random layout (indent widths 1-8 per body, tabs and spaces mixed per line, blank / whitespace-only / comment lines before declarations, trailing comments, extra blanks and tabs between tokens, non-ASCII text in quoted strings in front of elements on the same line, with and without a final newline); compiled by the real parser; distinct = distinct text; non-trivial = at least one element declared more than once or more than one file"
+	c.Res.Rule = "each case = one generated specification (1-3 apps in 1-4 blocks each over 1-5 files of a star / chain / tree import graph with up to n extra cross / diamond / back edges, in a third of the cases one app re-opened in every file; attribute and annotation values as string, flat array, nested arrays, empty array, empty string, multi-line doc string; types and tables with fields, simple endpoints, events, REST trees with every HTTP verb, nested statements, attributes, modifiers, array values and annotations; apps, types, fields, endpoints, REST methods and annotations re-declared; REST paths with typed parameters, collectors with action / call / HTTP statements declared in several blocks, subscriptions to declared and undeclared publishers) written with a random layout (indent widths 1-8 per body, tabs and spaces mixed per line, blank / whitespace-only / comment lines before declarations, trailing comments, extra blanks and tabs between tokens, non-ASCII text in quoted strings in front of elements on the same line, with and without a final newline); compiled by the real parser; distinct = distinct text; non-trivial = at least one element declared more than once or more than one file"
 	if c.Replay != "" {
 		var cs Input
 		if err := common.LoadReplay(c.Replay, &cs); err != nil {
@@ -221,6 +233,8 @@ Local Open Scope N_scope.`
 	// in several blocks, [name=value] attributes repeated on several declarations of their owner
 	nh := n / 6
 	gh := &gen{r: c.Rng.Fork(), hostile: true}
+	add("replacing", replacingTargeted(), layoutOpts{plain: true})
+	add("replacing", replacingTargeted(), layoutOpts{})
 	for i := 0; i < nh; i++ {
 		add("replacing", gh.spec(1+gh.r.Intn(2), 3, 1+gh.r.Intn(2), 3), layoutOpts{plain: i%2 == 0})
 	}
